@@ -95,3 +95,11 @@ V('C11', 'neg-alias-branches-swapped', T, TM + 'alias_context',
 ''', None)
 V('C11', 'index-except-tested-not-traced', D, M + 'trace_Index',
   'exprs.append(ExprDependency(expr=node.except_expr))', 'exprs.append(ExprDependency(expr=node.expr))', 'C11.R2', 'CreateConcreteIndex.except_expr')
+V('C11', 'ancestor-pointer-wrong-module', D, M + '_get_pointer_deps',
+  '            module=tansc.module,\n', '            module=pointer.module,\n', 'C11.R9', '_get_pointer_deps:qualname')
+V('C11', 'fork-weak-refs-aliased', T, TM + '_fork_context',
+  '    nctx.weak_refs = ctx.weak_refs\n', '    nctx.weak_refs = ctx.refs\n', 'C11.R9', '_fork_context:weak_refs')
+V('C11', 'fork-drops-path-prefix', T, TM + '_fork_context',
+  '        path_prefix=ctx.path_prefix,\n', '        path_prefix=ctx.anchors,\n', 'C11.R9', '_fork_context:path_prefix')
+V('C11', 'module-block-resets-documents', 'edb/schema/ddl.py', 'edb.schema.ddl.apply_sdl',
+  '            documents.setdefault(new_mod, [])\n', '            documents[new_mod] = []\n', 'C11.R9', 'documents-only-extended')
